@@ -262,6 +262,13 @@ func (c *Ctx) Violation(key, what string, detail any) {
 	}
 }
 
+// RestartProcess ends this child at a case boundary so that the parent starts a fresh process
+// for the remaining cases (used when abandoned goroutines of timed-out calls pile up).
+func (c *Ctx) RestartProcess() {
+	c.flush(false)
+	os.Exit(97)
+}
+
 func (c *Ctx) flush(done bool) {
 	c.mu.Lock()
 	defer c.mu.Unlock()
